@@ -21,7 +21,8 @@
    - plain (non-os_atomic) accesses are invisible to the DISPATCH_VERIF hook: the volatile reads of
      dbpd_atomic_flags (once per invocation, once in testcancel), the read and the write of dbpd_thread, and the
      abstract events above are LATENT events: steps of `tstep`, absent from recorded traces.  Trace conformance
-     (`conform`) runs the subset construction over latent steps (see vstep and Block_proofs.vstep_sound). *)
+     (`conform`) runs the subset construction over latent steps (see vstep and Block_proofs.vstep_sound); whole recorded
+     rounds are replayed on the global model gstep by Model/BlockR.v (latent steps inserted with the model's values). *)
 From Coq Require Import ZArith Bool List.
 From Verif Require Import Word Conc Gen_consts Gen_fields Gen_group Gen_block.
 Import ListNotations.
